@@ -326,6 +326,24 @@ class MetadataManager:
                 self.storage.write_file_cas(self.HINT_PATH, content, hint_etag)
                 return
             except CASConflictError as e:
+                # A precondition failure does not prove that somebody ELSE won:
+                # when the response to an applied PUT is lost, the transport
+                # (botocore) retries it and the retry conflicts with our own
+                # first attempt. Treating that as a lost race would re-apply
+                # the transaction on top of its own commit.
+                try:
+                    landed = self._own_flip_landed(metadata_file)
+                except Exception as read_error:
+                    raise AmbiguousCommitError(
+                        f"Version hint write conflicted and the outcome could not be determined: {read_error}"
+                    ) from read_error
+                if landed:
+                    return
+                if landed is None:
+                    raise AmbiguousCommitError(
+                        "Version hint write conflicted and the metadata log no longer "
+                        "shows whether this commit was superseded"
+                    ) from e
                 raise ConcurrentModificationException(
                     "Version hint changed under us (CAS conflict); retrying"
                 ) from e
@@ -343,6 +361,35 @@ class MetadataManager:
             raise AmbiguousCommitError(
                 f"Version hint write failed ambiguously: {e}"
             ) from e
+
+    def _own_flip_landed(self, metadata_file: str) -> Optional[bool]:
+        """After a conflict on the hint PUT: did OUR flip land all the same?
+
+        The metadata filename is unique to one commit attempt. The flip landed
+        if the hint names it, or - when later commits have already moved the
+        hint on - if the chain of superseded versions (metadata log) of the
+        current version contains it. It did not land if that chain holds a
+        DIFFERENT file with our version number (or never reached it). None
+        means the log was trimmed past our version: unknowable.
+        """
+        hint = self.storage.read_file(self.HINT_PATH).decode("utf-8", "replace").strip()
+        if hint == metadata_file:
+            return True
+        def version_of(name: str) -> Optional[int]:
+            m = _METADATA_FILE_RE.match(name)
+            return int(m.group(1)) if m else None
+
+        ours = version_of(metadata_file)
+        current = version_of(hint)
+        if ours is None or current is None or current <= ours:
+            return False
+        chain = self._read_metadata_file(f"{self.metadata_path}/{hint}").metadata_log
+        names = [str(entry.get("metadata-file", "")).rsplit("/", 1)[-1] for entry in chain]
+        if metadata_file in names:
+            return True
+        if any(version_of(name) == ours for name in names):
+            return False
+        return None
 
     def _release_lock_safely(self) -> None:
         """Release the distributed lock without ever raising."""
